@@ -244,7 +244,12 @@ func (e *Engine) verifyFunc(key string, prop string) (*FuncResult, error) {
 			if !clauseFor(en.Props, prop) {
 				continue
 			}
-			fc.oblig(s, "post."+en.Name, fc.spec(en.Expr, env), "ensures "+en.Src, "", en.Props)
+			t := fc.spec(en.Expr, env)
+			fc.oblig(s, "post."+en.Name, t, "ensures "+en.Src, "", en.Props)
+			if strings.HasPrefix(en.Name, "lemma-") {
+				// a lemma clause is an obligation of its own; the clauses after it may use it (keeps each query small)
+				s.assume(t)
+			}
 		}
 	}
 	if ref.Decl.Body == nil {
